@@ -270,3 +270,125 @@ pub fn done_tree(rng: &mut crate::rng::Rng, dm: Dm, idx: usize) -> (Doc, Vec<Vec
     }
     (d, paths)
 }
+
+/// Random tree of compound states and parallels below a compound `w`, with shallow and deep
+/// histories at random levels; `out` re-enters through each of them.  Leaves cycle through their
+/// children on their own event so that any combination of non-initial children can be recorded.
+pub fn history_tree(rng: &mut crate::rng::Rng, dm: Dm, idx: usize) -> (Doc, Vec<Vec<String>>) {
+    struct B<'a> {
+        rng: &'a mut crate::rng::Rng,
+        dm: Dm,
+        n: usize,
+        moves: Vec<String>,
+        hist: Vec<String>,
+    }
+    impl<'a> B<'a> {
+        fn hist_for(&mut self, parent: &mut Node, default_target: &str, force: bool) {
+            if force || self.rng.chance(1, 3) {
+                self.n += 1;
+                let id = format!("h{}", self.n);
+                let deep = self.rng.chance(1, 2);
+                let mut h = st(&id, Kind::History { deep }, self.dm);
+                h.trans.push(Trans {
+                    body: if self.dm == Dm::Null { vec![] } else { vec![Stmt::Mark(format!("hd:{}", id), vec![])] },
+                    ..tr(&format!("{}.0", id), "", &[default_target], self.dm)
+                });
+                // histories may stand before or after their siblings
+                if self.rng.chance(1, 2) {
+                    parent.children.insert(0, h);
+                } else {
+                    parent.children.push(h);
+                }
+                self.hist.push(id);
+            }
+        }
+        fn leaf(&mut self) -> Node {
+            self.n += 1;
+            let k = self.n;
+            let ev = format!("m{}", k);
+            self.moves.push(ev.clone());
+            let cnt = 2 + self.rng.below(2);
+            let mut c = st(&format!("c{}", k), Kind::State, self.dm);
+            for j in 0..cnt {
+                let mut a = st(&format!("c{}x{}", k, j), Kind::State, self.dm);
+                a.trans.push(tr(&format!("c{}x{}.0", k, j), &ev, &[&format!("c{}x{}", k, (j + 1) % cnt)], self.dm));
+                c.children.push(a);
+            }
+            let first = c.children[0].id.clone();
+            self.hist_for(&mut c, &first, false);
+            c
+        }
+        fn node(&mut self, depth: usize) -> Node {
+            let r = self.rng.below(8);
+            if depth >= 4 || self.n >= 9 || r < 3 {
+                self.leaf()
+            } else if r < 6 {
+                self.n += 1;
+                let mut p = st(&format!("p{}", self.n), Kind::Parallel, self.dm);
+                for _ in 0..(2 + self.rng.below(2)) {
+                    let c = self.node(depth + 1);
+                    p.children.push(c);
+                }
+                p
+            } else {
+                // compound wrapper: [subtree, atomic sibling], toggled by its own event
+                self.n += 1;
+                let k = self.n;
+                let ev = format!("n{}", k);
+                self.moves.push(ev.clone());
+                let mut inner = self.node(depth + 1);
+                let sib_id = format!("d{}s", k);
+                let k_inner = inner.trans.len();
+                inner.trans.push(tr(&format!("{}.{}", inner.id, k_inner), &ev, &[&sib_id], self.dm));
+                let mut sib = st(&sib_id, Kind::State, self.dm);
+                sib.trans.push(tr(&format!("{}.0", sib_id), &ev, &[&inner.id], self.dm));
+                let mut d = st(&format!("d{}", k), Kind::State, self.dm);
+                let first = inner.id.clone();
+                d.children = vec![inner, sib];
+                self.hist_for(&mut d, &first, false);
+                d
+            }
+        }
+    }
+    let mut b = B { rng, dm, n: 0, moves: vec![], hist: vec![] };
+    let inner = b.node(1);
+    let inner_id = inner.id.clone();
+    let mut w = st("w", Kind::State, dm);
+    let alt = st("walt", Kind::State, dm);
+    w.children = vec![inner, alt];
+    w.trans.push(tr("w.0", "x", &["out"], dm));
+    w.trans.push(tr("w.1", "alt", &["walt"], dm));
+    b.hist_for(&mut w, &inner_id, true);
+    let mut out = st("out", Kind::State, dm);
+    out.trans.push(tr("out.0", "direct", &["w"], dm));
+    let mut backs = vec![];
+    for (j, h) in b.hist.clone().iter().enumerate() {
+        let ev = format!("back{}", j);
+        out.trans.push(tr(&format!("out.{}", j + 1), &ev, &[h], dm));
+        backs.push(ev);
+    }
+    // initial state is w (first child)
+    let d = doc(&format!("history-tree-{}", idx), dm, vec![w, out]);
+    let mut paths = Vec::new();
+    for _ in 0..5 {
+        let mut path = Vec::new();
+        for _round in 0..(2 + b.rng.below(3)) {
+            for _ in 0..b.rng.below(5) {
+                let m = b.moves[b.rng.below(b.moves.len())].clone();
+                path.push(m);
+            }
+            if b.rng.chance(1, 6) {
+                path.push("alt".to_string());
+            }
+            path.push("x".to_string());
+            if b.rng.chance(1, 8) {
+                path.push("direct".to_string());
+            } else {
+                path.push(backs[b.rng.below(backs.len())].clone());
+            }
+        }
+        path.truncate(30);
+        paths.push(path);
+    }
+    (d, paths)
+}
